@@ -19,7 +19,7 @@ Definition obs_eqb (a b : obs) : bool :=
 Fixpoint run_obs (W : nat) (s : rstate) (ws : list wire) : list obs :=
   match ws with
   | [] => []
-  | w :: ws' => let '(s1, os) := recv W true s w in obs_of os :: run_obs W s1 ws'
+  | w :: ws' => let '(s1, os) := recv_est true W true s w in obs_of os :: run_obs W s1 ws'
   end.
 
 Fixpoint obs_list_eqb (a b : list obs) : bool :=
